@@ -1,11 +1,12 @@
 From Coq Require Extraction.
 From Coq Require Import ExtrOcamlBasic.
 From H3V Require Import Base.Bytes Gen.GenQpack Gen.GenStatic Model.Vas Model.DynTable Model.QInstr Model.QEncoder
-  Model.QDecoder Model.QSystem Model.PrefixInt Model.PrefixString Model.QWire Model.QBytes Spec.RFC9204.
+  Model.QDecoder Model.QSystem Model.PrefixInt Model.PrefixString Model.QWire Model.QBytes Model.QParse Spec.RFC9204.
 Extraction Language OCaml.
 Extraction "C20_model.ml"
   N.add N.mul N.div_eucl N.ltb N.leb N.eqb N.min len
   sys_init sys_step hp_new hp_get
   vas_relative vas_relative_base vas_post_base vas_index
   mkRdec rfc_instrs rfc_section rfc_insert_count rfc_size rfc_required
-  wire_block wire_einstrs wire_dinstr mkBsys bstep.
+  wire_block wire_einstrs wire_dinstr mkBsys bstep
+  parse_einstr parse_dinstr parse_all dec_apply dec_on_encoder_recv enc_on_decoder_recv.
